@@ -56,6 +56,13 @@ def cases(tier, seed):
                     continue
                 seen.add(key)
                 out.append({"kind": "point", "model": model, "cfg": cfg})
+        if d < 2:
+            # long window x stretched (far off-cone) pulse: the combination in which a shower time tens of ns before the first
+            # sample still leaves signal in the window (two deviations; the thorough tier has all of them)
+            for ai in [i for i, a in enumerate(COORDS["angle"]) if a in (("c", 20.0), ("c", -20.0), ("c", 10.0))]:
+                cfg = {c: 0 for c in NAMES}
+                cfg.update(angle=ai, N=COORDS["N"].index(1024))
+                out.append({"kind": "point", "model": model, "cfg": cfg})
         for e in (2, 0, 3):     # 1e7, 1e9, 1e11
             for fr in (0, 1, 2):
                 for dep in (0, 1) if tier == "quick" else (0, 1, 2, 3):
